@@ -21,6 +21,9 @@ def err_name(e):
         return None
     if isinstance(e, ProvError):
         return "lib:" + type(e).__name__
+    for base in (ValueError, TypeError, KeyError, AttributeError, IndexError, NotImplementedError):
+        if isinstance(e, base):
+            return "crash:" + base.__name__
     return "crash:" + type(e).__name__
 
 
@@ -116,6 +119,77 @@ class World:
         h = None
         if r is not None:
             h = self.bind_rec(r)
+            op["as"] = h
+        self.emit(op, {"err": err_name(err)})
+        return h, err
+
+    FACTORIES = {
+        "entity": ("Entity", []), "agent": ("Agent", []), "collection": ("Entity", []),
+        "activity": ("Activity", ["startTime", "endTime"]),
+        "generation": ("Generation", ["entity", "activity", "time"]),
+        "usage": ("Usage", ["activity", "entity", "time"]),
+        "start": ("Start", ["activity", "trigger", "starter", "time"]),
+        "end": ("End", ["activity", "trigger", "ender", "time"]),
+        "invalidation": ("Invalidation", ["entity", "activity", "time"]),
+        "communication": ("Communication", ["informed", "informant"]),
+        "attribution": ("Attribution", ["entity", "agent"]),
+        "association": ("Association", ["activity", "agent", "plan"]),
+        "delegation": ("Delegation", ["delegate", "responsible", "activity"]),
+        "influence": ("Influence", ["influencee", "influencer"]),
+        "derivation": ("Derivation", ["generatedEntity", "usedEntity", "activity", "generation", "usage"]),
+        "revision": ("Derivation", ["generatedEntity", "usedEntity", "activity", "generation", "usage"]),
+        "quotation": ("Derivation", ["generatedEntity", "usedEntity", "activity", "generation", "usage"]),
+        "primary_source": ("Derivation", ["generatedEntity", "usedEntity", "activity", "generation", "usage"]),
+        "specialization": ("Specialization", ["specificEntity", "generalEntity"]),
+        "alternate": ("Alternate", ["alternate1", "alternate2"]),
+        "mention": ("Mention", ["specificEntity", "generalEntity", "bundle"]),
+        "membership": ("Membership", ["collection", "entity"]),
+    }
+    NO_ID = ("specialization", "alternate", "mention", "membership")
+    ELEMENT_F = ("entity", "agent", "collection", "activity")
+
+    def factory(self, c, fname, ident, args, other):
+        """typed factory method of the container; args = positional formal arguments"""
+        op = {"op": "factory", "c": c, "f": fname, "id": proto.enc_name(ident),
+              "args": [self.enc_argval(a) for a in args], "other": self.enc_attrs(other or [])}
+        meth = getattr(self.conts[c], fname)
+        try:
+            if fname in self.ELEMENT_F:
+                r = meth(ident, *args, other_attributes=(list(other) if other else None))
+            elif fname in self.NO_ID:
+                r = meth(*args)
+            else:
+                r = meth(*args, identifier=ident, other_attributes=(list(other) if other else None))
+            err = None
+        except Exception as e:  # noqa
+            r = None
+            err = e
+        h = None
+        if r is not None:
+            h = self.bind_rec(r)
+            op["as"] = h
+        self.emit(op, {"err": err_name(err)})
+        return h, err
+
+    def conv(self, r, mname, args, other):
+        """element convenience method (entity.wasGeneratedBy(...)); returns handle of the new relation"""
+        rec = self.recs[r]
+        op = {"op": "conv", "r": r, "m": mname, "args": [self.enc_argval(a) for a in args],
+              "other": self.enc_attrs(other or [])}
+        bundle = rec.bundle
+        before = len(bundle.records)
+        try:
+            if other is None:
+                getattr(rec, mname)(*args)
+            else:
+                getattr(rec, mname)(*args, attributes=list(other))
+            err = None
+        except Exception as e:  # noqa
+            err = e
+        h = None
+        recs = bundle.records
+        if err is None and len(recs) == before + 1:
+            h = self.bind_rec(recs[-1])
             op["as"] = h
         self.emit(op, {"err": err_name(err)})
         return h, err
